@@ -17,6 +17,9 @@ def gen_case(seed, idx, ncycles):
 def run_impl(case):
     rnd = lib.rng_for(case["seed"], case["idx"], 1414)
     n = rnd.choice([0, 1, 2, 3, 7, 8, 9, 12, 17, 20])
+    xs = lib.rng_for(case["seed"], case["idx"], 1434).random()
+    if xs < 0.06:
+        n = (24, 32, 33, 40, 64, 65)[int(xs / 0.06 * 6)]
     dw = rnd.choice([8, 8, 16, 32]) if n > 3 else rnd.choice([1, 2, 8, 16])
     al = rnd.choice([0, 0, 1, 2])
     modes = [rnd.choice(["level", "rise", "fall"]) for _ in range(n)]
